@@ -60,6 +60,9 @@ struct World {
     qtypes: Vec<u16>,
     /// subsets larger than this are not enumerated (None: all subsets of up to 7 records)
     max_subset: Option<u32>,
+    /// `recs` were produced by the REFERENCE chain builder (vref::denial::nsec3_chain), not by the
+    /// real signer: decision level only (there are no signatures to replay end to end)
+    ref_chain: bool,
 }
 
 fn params(s: &Signing) -> (Vec<u8>, u16, bool) {
@@ -80,6 +83,15 @@ fn build_world(spec: &ZoneSpec, signing: &Signing) -> Result<World, String> {
     let mut r = spec.reference();
     r.add(&r.origin.clone(), rz::T_DNSKEY, rz::RData::Other("dnskey".into()));
     let (salt, iterations, _) = params(signing);
+    let mut qnames = spec.query_names(3);
+    // zones with an owner three labels down are also asked one label below the branch
+    if vzone::is_deep(spec) {
+        for q in vzone::DEEP_QUERIES {
+            if !qnames.iter().any(|x| x == q) {
+                qnames.push(q.to_string());
+            }
+        }
+    }
     Ok(World {
         spec: spec.clone(),
         signing: signing.clone(),
@@ -88,13 +100,14 @@ fn build_world(spec: &ZoneSpec, signing: &Signing) -> Result<World, String> {
         rz: r,
         origin,
         recs,
-        qnames: spec.query_names(3),
+        qnames,
         text: format!("{spec} [{}]", signing.tag()),
         hashes: RefCell::new(HashMap::new()),
         salt,
         iterations,
         qtypes: QTYPES.to_vec(),
         max_subset: None,
+        ref_chain: false,
     })
 }
 
@@ -269,10 +282,30 @@ fn dnskey_response(w: &World) -> Message {
     m
 }
 
+/// What the validator gets is what came off the wire: every scripted upstream response is encoded
+/// and decoded again (the NSEC3 / type-bitmap / RRSIG codecs are on the path of every end-to-end verdict).
+static WIRE_FAILURES: AtomicU64 = AtomicU64::new(0);
+
+fn through_the_wire(m: Message) -> Message {
+    match m.to_vec().ok().and_then(|b| Message::from_vec(&b).ok()) {
+        Some(back) => back,
+        None => {
+            // reported at the end of the run (a scripted response could not be encoded and decoded again)
+            WIRE_FAILURES.fetch_add(1, Ordering::Relaxed);
+            m
+        }
+    }
+}
+
 fn e2e_case(world: &World, rt: &tokio::runtime::Runtime, query: &Query, soa: &Option<HName>, claim: &Claim, mask: u32, limits: Option<(u16, u16)>) -> E2e {
+    e2e_case_rcode(world, rt, query, soa, claim, mask, limits, None)
+}
+
+#[allow(clippy::too_many_arguments)]
+fn e2e_case_rcode(world: &World, rt: &tokio::runtime::Runtime, query: &Query, soa: &Option<HName>, claim: &Claim, mask: u32, limits: Option<(u16, u16)>, rcode: Option<ResponseCode>) -> E2e {
     let mut m = Message::new(0, MessageType::Response, OpCode::Query);
     m.add_query(query.clone());
-    m.metadata.response_code = rcode_of(claim);
+    m.metadata.response_code = rcode.unwrap_or(rcode_of(claim));
     m.metadata.authoritative = true;
     m.add_answers(world.expanded_answer(claim, &query.name, false));
     if soa.is_some() {
@@ -291,7 +324,7 @@ fn e2e_case(world: &World, rt: &tokio::runtime::Runtime, query: &Query, soa: &Op
             return Some(key.clone());
         }
         if q.name == main.name && q.query_type == main.query_type {
-            return Some(m.clone());
+            return Some(through_the_wire(m.clone()));
         }
         None
     });
@@ -312,6 +345,7 @@ fn e2e_agrees(hook: Proof, e: &E2e) -> bool {
 
 struct Counters {
     bound: AtomicU64,
+    thorough: bool,
 }
 
 fn case_json(world: &World, qname: &str, qtype: u16, claim: &Claim, soa: &Option<HName>, mask: u32) -> Value {
@@ -435,7 +469,11 @@ fn run_claim(
                     }
                 }
             }
-            if bad_key.is_some() || slice || only.is_some() {
+            // quick: 1/4 of the slice and 1/8 of the Secure-but-false cases (deterministic by digest);
+            // thorough: every Secure-but-false case and the whole 1/64 slice
+            let digest = fnv_str(&format!("{case_id}|{soa:?}|{mask}|bind"));
+            let replay = !world.ref_chain && (only.is_some() || if cnt.thorough { bad_key.is_some() || slice } else { (bad_key.is_some() && digest % 8 == 0) || (slice && digest % 4 == 0) });
+            if replay {
                 let e = e2e_case(world, rt, &query, &soa, claim, mask, None);
                 cnt.bound.fetch_add(1, Ordering::Relaxed);
                 if !e2e_agrees(verdict, &e) {
@@ -461,14 +499,42 @@ fn run_claim(
 /// Returns false if the real chain is not the chain RFC 5155 7.1 prescribes for the zone.
 fn check_chain(world: &World, l: &mut Local) -> bool {
     let (salt, iterations, opt_out) = params(&world.signing);
-    let strip = |t: &BTreeSet<u16>| -> BTreeSet<u16> { t.iter().copied().filter(|x| *x != rz::T_RRSIG).collect() };
+    // Exact comparison of every field incl. the RRSIG bit, with ONE tolerated (and counted) difference: the
+    // real signer signs the NS RRset of an insecure delegation and therefore sets the RRSIG bit there.
+    let ns_only: BTreeSet<u16> = [rz::T_NS].into_iter().collect();
+    let tolerated = std::cell::Cell::new(0u64);
+    let strip = |t: &BTreeSet<u16>| -> BTreeSet<u16> {
+        let without: BTreeSet<u16> = t.iter().copied().filter(|x| *x != rz::T_RRSIG).collect();
+        if without == ns_only {
+            if t.contains(&rz::T_RRSIG) {
+                tolerated.set(tolerated.get() + 1);
+            }
+            without
+        } else {
+            t.clone()
+        }
+    };
     let want = dn::nsec3_chain(&world.rz, &salt, iterations, opt_out);
     let mut got: Vec<&Nsec3Rec> = world.recs.iter().map(|r| &r.2).collect();
     got.sort_by(|a, b| a.hash.cmp(&b.hash));
+    // hickory's RDATA octets = the reference encoder's octets, for every genuine record
+    {
+        use hickory_proto::serialize::binary::BinEncodable;
+        for (owner, n3, abs) in &world.recs {
+            let want = dn::nsec3_rdata_wire(1, abs.opt_out as u8, abs.iterations, &abs.salt, &abs.next, &abs.types);
+            match n3.to_bytes() {
+                Ok(got) if got == want => l.outcome("codec:genuine-nsec3-emit:as-reference"),
+                other => l.violation("codec:genuine-nsec3-emit-differs", &format!("{owner} NSEC3: emitted {other:02x?}, reference {want:02x?}"), || json!({"level": "chain", "zone": world.spec.to_json(), "signing": world.signing.tag()})),
+            }
+        }
+    }
     let same = want.len() == got.len()
         && want.iter().zip(got.iter()).all(|(w, g)| w.hash == g.hash && w.next == g.next && strip(&w.types) == strip(&g.types) && w.opt_out == g.opt_out && w.salt == g.salt && w.iterations == g.iterations);
     if same {
         l.outcome("chain:as-rfc5155");
+        if tolerated.get() > 0 {
+            l.outcome("obs:chain:rrsig-bit-at-insecure-delegation");
+        }
         return true;
     }
     let wo: BTreeSet<&Vec<u8>> = want.iter().map(|r| &r.hash).collect();
@@ -534,6 +600,10 @@ fn ref_class(s: &Step, qname: &Name, qtype: u16, zone: &Zone) -> Option<String> 
         Step::NoData(NoDataKind::WildcardEnt { .. }) => Some("NODATA-wildent".into()),
         Step::Data { source, .. } if source != qname => Some("WILDCARD".into()),
         Step::Cname { source, .. } if source != qname => Some("WILDCARD-CNAME".into()),
+        // ordinary positive answers: "for every zone and QUERY the server's own proof is accepted" -
+        // whatever the server attaches to them must not make the validator reject them
+        Step::Data { .. } => Some("POSITIVE".into()),
+        Step::Cname { .. } if qtype != rz::T_CNAME => Some("POSITIVE-CNAME".into()),
         _ => None,
     }
 }
@@ -640,7 +710,7 @@ fn completeness(world: &World, rt: &tokio::runtime::Runtime, l: &mut Local, only
         if q.query_type == RecordType::DNSKEY && q.name == origin {
             return Some(dnskey.clone());
         }
-        t2.get(&(q.name.clone(), q.query_type)).cloned()
+        t2.get(&(q.name.clone(), q.query_type)).cloned().map(through_the_wire)
     });
     let handle = vzone::validator(up, world.anchors(), None);
     let hasher = |x: &Name| world.hash(x);
@@ -678,6 +748,18 @@ fn completeness(world: &World, rt: &tokio::runtime::Runtime, l: &mut Local, only
     for (qn, t, class) in todo {
         l.eval();
         let e = vzone::validate_with(rt, &handle, Query::new(vzone::hname(&qn), RecordType::from(t)));
+        // second step: the same query again on the same handle (validation cache filled by the first
+        // pass, by the other queries and by rejected ones): same verdict
+        let again = vzone::validate_with(rt, &handle, Query::new(vzone::hname(&qn), RecordType::from(t)));
+        if again.class() != e.class() {
+            l.violation(
+                &format!("second-validation-differs:{}->{}", e.class(), again.class()),
+                &format!("{qn} {}: validating the same server answer a second time on the same DnssecDnsHandle gives another verdict", rz::type_name(t)),
+                || json!({"level": "completeness", "zone": world.spec.to_json(), "signing": world.signing.tag(), "qname": qn, "qtype": t}),
+            );
+        } else {
+            l.outcome("second-validation:same-verdict");
+        }
         if e.is_secure() {
             l.outcome(&format!("complete:{class}"));
             l.nontrivial(fnv_str(&format!("complete|{}|{qn}|{t}", world.text)));
@@ -685,6 +767,17 @@ fn completeness(world: &World, rt: &tokio::runtime::Runtime, l: &mut Local, only
         }
         let m = &table[&(vzone::hname(&qn), RecordType::from(t))];
         let name = Name::parse(&qn);
+        if class.starts_with("POSITIVE") {
+            let denial = m.authorities.iter().any(|r| r.record_type() == RecordType::NSEC3);
+            let chained = m.answers.iter().any(|r| r.record_type() != RecordType::RRSIG && r.name != vzone::hname(&qn));
+            let key = format!("incomplete:{class}:{}:{}{}", e.class(), if denial { "nsec3-attached-to-positive-answer" } else { "no-denial-records" }, if chained { ":chained-answer" } else { "" });
+            l.violation(&key, &format!("the server's own DO=1 POSITIVE answer for {qn} {} is not accepted as Secure by the validator: {}", rz::type_name(t), e.class()), || {
+                json!({"level": "completeness", "zone": world.spec.to_json(), "signing": world.signing.tag(), "world": world.text, "qname": qn, "qtype": t, "qtype_name": rz::type_name(t),
+                       "answer": m.answers.iter().filter(|r| r.record_type() != RecordType::RRSIG).map(|r| format!("{} {} {}", r.name, r.record_type(), r.data)).collect::<Vec<_>>(),
+                       "authority": m.authorities.iter().filter(|r| r.record_type() != RecordType::RRSIG).map(|r| format!("{} {} {}", r.name, r.record_type(), r.data)).collect::<Vec<_>>()})
+            });
+            continue;
+        }
         let attached: Vec<Nsec3Rec> = m
             .authorities
             .iter()
@@ -807,6 +900,24 @@ fn reowned(spec: &ZoneSpec, w: &World, l: &mut Local) {
             let query = Query::new(hq.clone(), RecordType::from(t));
             for claim in w.claims(&qname, t) {
                 let answers = w.expanded_answer(&claim, &hq, true);
+                // an NSEC3 record owned by the ROOT name itself (no hash label to split off): Bogus, no panic
+                for i in 0..n {
+                    let root = HName::root();
+                    for soa in [Some(w.origin.clone()), None] {
+                        l.eval();
+                        match vcore::catch(|| verify_nsec3(&query, soa.as_ref(), rcode_of(&claim), &answers, &[(&root, &w.recs[i].1)], SOFT, HARD)) {
+                            Ok(v) => {
+                                l.outcome(&format!("reowned:root-owner:{}", format!("{v:?}").to_lowercase()));
+                                if v == Proof::Secure {
+                                    l.violation(&format!("unsound:{}:record-owned-by-root", claim.tag()), "an NSEC3 record owned by the root name gives Secure", || {
+                                        json!({"level": "reowned", "zone": spec.to_json(), "signing": w.signing.tag(), "qname": qn, "qtype": t, "claim": claim_json(&claim)})
+                                    });
+                                }
+                            }
+                            Err(p) => l.violation(&format!("panic:{}", vcore::short_loc(&p.loc)), &p.msg, || json!({"level": "reowned", "zone": spec.to_json(), "signing": w.signing.tag(), "qname": qn, "qtype": t})),
+                        }
+                    }
+                }
                 for (bi, (_, rbase, rel)) in bases.iter().enumerate() {
                     for soa in [Some(w.origin.clone()), None] {
                         let judged = soa.is_some() || !qname.at_or_below(rbase);
@@ -966,9 +1077,15 @@ fn iteration_limits(spec: &ZoneSpec, rt: &tokio::runtime::Runtime, l: &mut Local
 ///  * 101..=500: never Secure; 501 and 65535: Bogus — every subset, every claim;
 ///  * limits (65535, 65535) with iterations 65535: not above any limit, judged like any other
 ///    zone (Secure => claim true), full chain only (each call hashes ~6 names 65536 times).
-fn boundary_params(spec: &ZoneSpec, top_limits: bool, rt: &tokio::runtime::Runtime, l: &mut Local, cnt: &Counters) {
+const BOUNDARY_SETS: usize = 7;
+
+/// `which`: one of the [`BOUNDARY_SETS`] parameter sets (None: all, replay). `top_all_qnames`: the
+/// limits-65535 part asks every query name (thorough) or only the apex, U(1) and a.a.z. (quick; the
+/// ~400,000 SHA-1 rounds per call make this the longest serial stretch of the whole check).
+fn boundary_params(spec: &ZoneSpec, top_limits: bool, top_all_qnames: bool, which: Option<usize>, rt: &tokio::runtime::Runtime, l: &mut Local, cnt: &Counters) {
     let long_salt: Vec<u8> = (0..255u32).map(|i| (i * 7 + 1) as u8).collect();
-    for (it, salt) in [(100u16, vec![]), (0, long_salt.clone()), (1, long_salt), (101, vec![]), (500, vec![]), (501, vec![]), (65535, vec![0xab])] {
+    let sets: [(u16, Vec<u8>); BOUNDARY_SETS] = [(100u16, vec![]), (0, long_salt.clone()), (1, long_salt), (101, vec![]), (500, vec![]), (501, vec![]), (65535, vec![0xab])];
+    for (it, salt) in sets.into_iter().enumerate().filter(|(i, _)| which.map(|w| w == *i).unwrap_or(true)).map(|(_, s)| s) {
         let signing = Signing::Nsec3 { iterations: it, salt: salt.clone(), opt_out: false };
         let Ok(mut w) = build_world(spec, &signing) else {
             l.violation("zone-build-failed", "boundary parameters", || json!({"zone": spec.to_json(), "signing": signing.tag()}));
@@ -1027,7 +1144,7 @@ fn boundary_params(spec: &ZoneSpec, top_limits: bool, rt: &tokio::runtime::Runti
                         }
                     }
                     // limits at the top of u16: iterations 65535 is not above them
-                    if it == 65535 && top_limits {
+                    if it == 65535 && top_limits && (top_all_qnames || qname.num_labels() <= w.apex.num_labels() + 1 || qn == "a.a.z.") {
                         let mask = *masks.last().unwrap();
                         let sub: Vec<(&HName, &NSEC3)> = (0..w.recs.len()).filter(|i| mask >> i & 1 == 1).map(|i| (&w.recs[i].0, &w.recs[i].1)).collect();
                         l.eval();
@@ -1050,12 +1167,148 @@ fn boundary_params(spec: &ZoneSpec, top_limits: bool, rt: &tokio::runtime::Runti
     }
 }
 
-fn run_world(world: &World, rt: &tokio::runtime::Runtime, l: &mut Local, cnt: &Counters, sample: bool) {
+/// Response codes other than NOERROR / NXDOMAIN and NXDOMAIN next to a wildcard-expanded answer:
+/// never Secure, whatever NSEC3 set comes along.
+fn rcode_variants(world: &World, rt: &tokio::runtime::Runtime, l: &mut Local, cnt: &Counters) {
+    let n = world.recs.len();
+    let masks = world.masks();
+    let rcodes = [ResponseCode::ServFail, ResponseCode::Refused, ResponseCode::FormErr, ResponseCode::NotImp, ResponseCode::YXDomain, ResponseCode::NotAuth, ResponseCode::BADVERS];
+    for qn in &world.qnames {
+        let qname = Name::parse(qn);
+        let hq = vzone::hname(qn);
+        for t in [rz::T_A, rz::T_DS] {
+            let query = Query::new(hq.clone(), RecordType::from(t));
+            for claim in world.claims(&qname, t) {
+                let answers = world.expanded_answer(&claim, &hq, true);
+                let mut variants: Vec<(String, ResponseCode)> = rcodes.iter().map(|r| (format!("rcode-{r:?}").to_uppercase(), *r)).collect();
+                if matches!(claim, Claim::Wildcard { .. }) {
+                    variants.push(("NXDOMAIN-WITH-ANSWER".into(), ResponseCode::NXDomain));
+                }
+                for (tag, rcode) in &variants {
+                    for soa in [Some(world.origin.clone()), None] {
+                        for &mask in &masks {
+                            let sub: Vec<(&HName, &NSEC3)> = (0..n).filter(|i| mask >> i & 1 == 1).map(|i| (&world.recs[i].0, &world.recs[i].1)).collect();
+                            l.eval();
+                            let v = match vcore::catch(|| verify_nsec3(&query, soa.as_ref(), *rcode, &answers, &sub, SOFT, HARD)) {
+                                Ok(v) => v,
+                                Err(p) => {
+                                    l.violation(&format!("panic:{}", vcore::short_loc(&p.loc)), &p.msg, || case_json(world, qn, t, &claim, &soa, mask));
+                                    continue;
+                                }
+                            };
+                            l.outcome(&format!("variant:{}:{}", if tag.starts_with("RCODE") { "other-rcode" } else { tag.as_str() }, format!("{v:?}").to_lowercase()));
+                            if v == Proof::Secure {
+                                // confirm end to end (the first per worker and key only: the verdict is part of the key)
+                                let e2e = if world.ref_chain { "n/a".to_string() } else { e2e_case_rcode(world, rt, &query, &soa, &claim, mask, None, Some(*rcode)).class() };
+                                l.violation(&format!("unsound:{tag}:{}", claim.tag()), &format!("{tag}: a response for {qn} {} with this rcode is Secure on NSEC3 records (end to end: {e2e})", rz::type_name(t)), || {
+                                    let mut j = case_json(world, qn, t, &claim, &soa, mask);
+                                    j["level"] = json!("variant");
+                                    j["variant"] = json!(tag);
+                                    j
+                                });
+                            }
+                        }
+                    }
+                }
+                if !world.ref_chain && fnv_str(&format!("{}|{qn}|{t}|{claim:?}|variant", world.text)) % 16 == 0 {
+                    let e = e2e_case_rcode(world, rt, &query, &Some(world.origin.clone()), &claim, (1u32 << n) - 1, None, Some(ResponseCode::ServFail));
+                    cnt.bound.fetch_add(1, Ordering::Relaxed);
+                    l.outcome(&format!("variant:e2e-servfail:{}", if e.is_secure() { "secure" } else { "not-secure" }));
+                    if e.is_secure() {
+                        l.violation(&format!("unsound-e2e:RCODE-SERVFAIL:{}", claim.tag()), "a SERVFAIL response with NSEC3 records is accepted as Secure end to end", || case_json(world, qn, t, &claim, &None, (1u32 << n) - 1));
+                    }
+                }
+            }
+        }
+    }
+}
+
+/// Codec family (producer independence): NSEC3 RDATA octets of the reference encoder
+/// (`vref::denial::nsec3_rdata_wire`, RFC 5155 3.2) versus hickory's: hickory must emit exactly
+/// those octets and decode them (inside a reference-built message) to the same fields. Flags
+/// 0/1, iterations 0/1/65535, salt lengths 0/1/255, type sets reaching windows 0/1/4/128/255.
+fn codec_family(l: &mut Local) {
+    use hickory_proto::serialize::binary::BinEncodable;
+    let alphabet: [u16; 12] = [1, 2, 5, 6, 43, 46, 51, 255, 256, 1234, 32768, 65535];
+    let mut sets: Vec<BTreeSet<u16>> = vec![BTreeSet::new()];
+    for a in alphabet {
+        sets.push([a].into_iter().collect());
+        for b in alphabet {
+            if a < b {
+                sets.push([a, b].into_iter().collect());
+            }
+        }
+    }
+    for m in 0u32..64 {
+        sets.push((0..6).filter(|i| m >> i & 1 == 1).map(|i| alphabet[i * 2]).collect());
+    }
+    let long_salt: Vec<u8> = (0..255u32).map(|i| (i * 3 + 5) as u8).collect();
+    let next: Vec<u8> = (1..=20u8).collect();
+    for flags in [0u8, 1] {
+        for iterations in [0u16, 1, 65535] {
+            for salt in [vec![], vec![0xab], long_salt.clone()] {
+                for types in &sets {
+                    l.eval();
+                    let want = dn::nsec3_rdata_wire(1, flags, iterations, &salt, &next, types);
+                    let n3 = NSEC3::new(Default::default(), flags == 1, iterations, salt.clone(), next.clone(), types.iter().map(|t| RecordType::from(*t)));
+                    let case = || json!({"level": "codec", "flags": flags, "iterations": iterations, "salt_len": salt.len(), "types": types.iter().collect::<Vec<_>>()});
+                    match n3.to_bytes() {
+                        Ok(got) if got == want => l.outcome("codec:nsec3-emit:as-reference"),
+                        Ok(got) => l.violation("codec:nsec3-emit-differs", &format!("NSEC3 RDATA emitted as {got:02x?}, RFC 5155 3.2 gives {want:02x?}"), case),
+                        Err(e) => l.violation("codec:nsec3-emit-fails", &e.to_string(), case),
+                    }
+                    let owner = [b"0p9mhaveqvm6t7vbl5lop2u3t2rp3tom".to_vec(), b"z".to_vec()];
+                    let msg = dn::message_with_authority_record(&[b"q".to_vec(), b"z".to_vec()], 1, &owner, rz::T_NSEC3, 300, &want);
+                    match Message::from_vec(&msg) {
+                        Err(e) => l.violation("codec:nsec3-decode-fails", &e.to_string(), case),
+                        Ok(m) => {
+                            let ok = m.authorities.len() == 1
+                                && match &m.authorities[0].data {
+                                    hickory_proto::rr::RData::DNSSEC(hickory_proto::dnssec::rdata::DNSSECRData::NSEC3(d)) => {
+                                        let got: BTreeSet<u16> = d.type_set().iter().map(u16::from).collect();
+                                        got == *types && d.opt_out() == (flags == 1) && d.iterations() == iterations && d.salt() == salt.as_slice() && d.next_hashed_owner_name() == next.as_slice()
+                                    }
+                                    _ => false,
+                                };
+                            if ok {
+                                l.outcome("codec:nsec3-decode:as-reference");
+                            } else {
+                                l.violation("codec:nsec3-decode-differs", &format!("reference NSEC3 RDATA decodes to {:?}", m.authorities.first().map(|r| r.data.to_string())), case);
+                            }
+                        }
+                    }
+                }
+            }
+        }
+    }
+}
+
+fn run_world(world: &mut World, rt: &tokio::runtime::Runtime, l: &mut Local, cnt: &Counters, sample: bool) {
     if !check_chain(world, l) {
-        // the published records do not describe the zone (a signer defect, reported above): what
-        // they "prove" cannot be judged against the zone's content
-        l.outcome("skipped:defective-chain");
-        return;
+        // The records the real signer published do not describe the zone (a signer defect, reported above).
+        // The decision procedure is still exercised on this zone: with the chain the REFERENCE builder
+        // (vref::denial::nsec3_chain, RFC 5155 7.1) produces for it - an input hickory did not produce.
+        // Decision level only: there are no signatures for these records.
+        if !cnt.thorough && world.spec.owners.len() > 1 {
+            // quick: only the zones with <= 1 owner are run on the reference chain
+            l.outcome("skipped:defective-chain");
+            return;
+        }
+        l.outcome("defective-chain:replaced-by-reference-chain");
+        let (salt, iterations, opt_out) = params(&world.signing);
+        world.recs = dn::nsec3_chain(&world.rz, &salt, iterations, opt_out)
+            .into_iter()
+            .map(|r| {
+                let owner = world.origin.prepend_label(dn::base32hex(&r.hash)).unwrap();
+                let n3 = NSEC3::new(Default::default(), r.opt_out, r.iterations, r.salt.clone(), r.next.clone(), r.types.iter().map(|t| RecordType::from(*t)));
+                (owner, n3, r)
+            })
+            .collect();
+        world.ref_chain = true;
+    }
+    let world: &World = world;
+    for sh in world.rz.deep_shapes() {
+        l.outcome(sh);
     }
     let masks = world.masks();
     if world.recs.len() > 7 || world.max_subset.is_some() {
@@ -1078,7 +1331,13 @@ fn run_world(world: &World, rt: &tokio::runtime::Runtime, l: &mut Local, cnt: &C
             }
         }
     }
-    completeness(world, rt, l, None);
+    if !world.ref_chain {
+        completeness(world, rt, l, None);
+    }
+    // other rcodes / NXDOMAIN with answer: zones with <= 1 owner (quick), every zone of the full-treatment family (thorough)
+    if world.spec.owners.len() <= 1 || (cnt.thorough && world.max_subset.is_none()) {
+        rcode_variants(world, rt, l, cnt);
+    }
     if sample {
         l.sample(json!({"world": world.text, "nsec3s": describe(world, (1u32 << world.recs.len()) - 1), "qnames": world.qnames.len(), "subsets": masks.len()}));
     }
@@ -1101,6 +1360,20 @@ fn signings_for(spec: &ZoneSpec, thorough: bool) -> Vec<Signing> {
     v
 }
 
+/// Query types of a two-owner zone in the quick tier: A, TXT and DS always; NS only if the zone has a
+/// delegation, CNAME only if it has a CNAME (otherwise both behave like TXT everywhere but at the apex,
+/// and the apex is covered by the zones with <= 1 owner).
+fn quick_qtypes(spec: &ZoneSpec) -> Vec<u16> {
+    let mut v = vec![rz::T_A, rz::T_TXT, rz::T_DS];
+    if spec.owners.iter().any(|(_, k)| k.is_delegation()) {
+        v.push(rz::T_NS);
+    }
+    if spec.owners.iter().any(|(_, k)| matches!(k, Kind::CnameA | Kind::CnameB | Kind::CnameAA | Kind::CnameOut)) {
+        v.push(rz::T_CNAME);
+    }
+    v
+}
+
 fn main() {
     // a stack overflow / abort in the code under test must become a verdict, not a dead check
     vcore::supervise("C09");
@@ -1115,14 +1388,14 @@ fn main() {
         }
         vcore::machinery_exit("vref::zone / vref::denial self-test against the RFC examples failed");
     }
-    let cnt = Counters { bound: AtomicU64::new(0) };
+    let cnt = Counters { bound: AtomicU64::new(0), thorough };
 
     if let Some((_key, case)) = ctx.replay_case() {
         let spec = ZoneSpec::from_json(&case["zone"]).unwrap_or_else(|| vcore::machinery_exit("replay without zone"));
         let rt = vsim::rt();
         ctx.with_local(|l| match case["level"].as_str() {
             Some("limits") => iteration_limits(&spec, &rt, l, &cnt),
-            Some("boundary") => boundary_params(&spec, true, &rt, l, &cnt),
+            Some("boundary") => boundary_params(&spec, true, true, None, &rt, l, &cnt),
             Some("e2e-foreign") => e2e_foreign_zone_nsec3(&rt, l),
             Some("reowned") => {
                 let w = build_world(&spec, &Signing::from_tag(case["signing"].as_str().unwrap_or("nsec3:i0:s-:noopt")).unwrap()).unwrap();
@@ -1159,12 +1432,14 @@ fn main() {
 
     ctx.set_rule(
         "every zone of the universe (apex + <=K owners of U(d), labels {a,b,*}; kinds A, A+TXT, CNAME->a.z., NS, NS+glue, NS+DS [quick, d=2,K<=2]; thorough: + TXT, CNAME->a.a.z. for d=2,K<=2, \
-         and the larger zones d=2,K=3 over {A,CNAME,NS} and d=3,K<=2 over {A,CNAME,NS,NS+DS} with qtypes {A,DS} and subsets of size <=3) signed by the real nsec3_zone: quick (0,-) without opt-out and, for zones with an insecure delegation, (1,ab) with opt-out; \
+         and the larger zones d=2,K=3 over {A,CNAME,NS} and d=3,K<=2 over {A,CNAME,NS,NS+DS} with qtypes {A,DS} and subsets of size <=3; both tiers, same treatment: the deep slice over {a.z,a.a.z,a.a.a.z,b.a.a.z,*.a.z,*.a.a.z} with an owner 3 labels down - quick K<=2 over {A,NS,NS+DS} and K=3 of kind A, thorough K=3 over {A,NS,NS+DS}; \
+         deep zones are also asked 4 names one label below the branch; quick thins the two-owner zones: qtypes NS/CNAME only where the zone has a delegation/CNAME) signed by the real nsec3_zone: quick (0,-) without opt-out and, for zones with an insecure delegation, (1,ab) with opt-out; \
          thorough both parameter sets with and without opt-out; x every qname of {apex, U(3), x.o., names below cuts} x qtype {A,TXT,DS,NS,CNAME} x claim {NXDOMAIN, NODATA, expansion of each \
          published wildcard RRset} x soa {apex, absent} x EVERY non-empty subset of the zone's NSEC3 records (>7 records: subsets of size <=3) -> verify_nsec3; \
          oracle: Secure => claim true in the zone (vref::denial::truth) and the subset is the RFC 5155 section 8 proof with opt-out only for DS (nsec3_proves). \
-         Plus parameter mixtures and records re-owned below descendants {a.z.,b.z.,a.a.z.,*.z.} / the ancestor (root) / an unrelated zone of the SOA owner, whole subsets and single members (never Secure), iterations 0..3 x limits {(1,2),(0,0),(2,2)}, boundary parameters (iterations 100/101/500/501/65535 against the default limits 100/500, 255-octet salt, limits 65535/65535), completeness of every negative/wildcard DO=1 \
-         server answer through the real DnssecDnsHandle. Non-trivial = distinct (world, qname, qtype) for which some enumerated (claim, soa, subset) has a false claim or a valid proof of >= 2 records, plus each completeness case.",
+         Plus rcodes other than NOERROR/NXDOMAIN and NXDOMAIN next to a wildcard answer (never Secure), an NSEC3 codec family (reference octets vs hickory: emit and decode), \
+         zones whose real chain is defective run on the REFERENCE-produced chain (decision level), parameter mixtures (iterations only / salt only / both) and records re-owned below descendants {a.z.,b.z.,a.a.z.,*.z.} / the ancestor (root) / an unrelated zone of the SOA owner, whole subsets and single members (never Secure), iterations 0..3 x limits {(1,2),(0,0),(2,2)}, boundary parameters (iterations 100/101/500/501/65535 against the default limits 100/500, 255-octet salt, limits 65535/65535), completeness of EVERY DO=1 \
+         server answer (negative, wildcard, positive, CNAME chains) through the real DnssecDnsHandle (via the wire codec), each validated twice on the same handle. Non-trivial = distinct (world, qname, qtype) for which some enumerated (claim, soa, subset) has a false claim or a valid proof of >= 2 records, plus each completeness case.",
     );
     ctx.assume("vref::zone + vref::denial (self-tested on every run against RFC 4592, RFC 4034 6.1, RFC 4035 app. A/B, RFC 5155 app. A hash vectors and app. B)");
     ctx.assume("the attacker only has genuine signed records of the zone (forged signatures are C06's business); SHA-1 and Ed25519 via ring; no hash collisions among the <= 60 names involved");
@@ -1183,6 +1458,16 @@ fn main() {
         specs.extend(vzone::family("z.", &vzone::universe(2), 3, &kinds3).into_iter().filter(|s| s.owners.len() == 3));
         specs.extend(vzone::family("z.", &vzone::universe(3), 2, &kinds4).into_iter().filter(|s| s.owners.iter().any(|(o, _)| o.matches('.').count() == 4)));
     }
+    // the deep slice (both tiers, family-1 treatment): one branch three labels deep - empty non-terminals whose first
+    // descendant is two or more labels below them, an empty non-terminal above another, wildcards below them
+    // (closest-encloser arithmetic over >= 2 missing levels). quick: <= 2 owners over {A, NS, NS+DS} and 3 owners of
+    // kind A; thorough (which has the <= 2 owner zones in the d=3 family above): 3 owners over {A, NS, NS+DS}
+    {
+        let deep_kinds = [Kind::A, Kind::Ns, Kind::NsDs];
+        let deep = if thorough { vzone::deep_family(&[], Some(&deep_kinds)) } else { vzone::deep_family(&deep_kinds, Some(&[Kind::A])) };
+        ctx.set("zones_deep_slice", json!(deep.len()));
+        specs.extend(deep);
+    }
     let mut jobs: Vec<(usize, Signing)> = vec![];
     for (i, s) in specs.iter().enumerate() {
         // the larger zones: one parameter set (plus opt-out where there is an insecure delegation)
@@ -1196,6 +1481,8 @@ fn main() {
     let n = jobs.len() as u64;
     let stride = (n / 10).max(1);
     ctx.case_timeout_s.store(600, Ordering::Relaxed);
+    let t0 = std::time::Instant::now();
+    let mut phases: Vec<(&str, f64)> = vec![];
     ctx.par_run_init(
         n,
         1,
@@ -1207,14 +1494,19 @@ fn main() {
                     if *si >= full {
                         w.qtypes = vec![rz::T_A, rz::T_DS];
                         w.max_subset = Some(3);
+                    } else if !thorough && specs[*si].owners.len() >= 2 {
+                        // quick, two-owner zones: depth moved to thorough, no dimension dropped - the query types
+                        // that no record of the zone can tell apart from TXT are left out (zones with <= 1 owner: all five)
+                        w.qtypes = quick_qtypes(&specs[*si]);
                     }
-                    run_world(&w, rt, l, &cnt, i % stride == 0 || i == n - 1)
+                    run_world(&mut w, rt, l, &cnt, i % stride == 0 || i == n - 1)
                 }
                 Err(e) => l.violation("zone-build-failed", &e, || json!({"zone": specs[*si].to_json(), "signing": sg.tag()})),
             }
         },
     );
 
+    phases.push(("worlds", t0.elapsed().as_secs_f64()));
     // parameter mixtures and wrong-zone owners: zones with <= 1 owner (quick) / <= 2 owners, every 3rd (thorough)
     let mix: Vec<&ZoneSpec> = specs.iter().enumerate().filter(|(i, s)| s.owners.len() <= 1 || (thorough && s.owners.len() == 2 && i % 3 == 0)).map(|(_, s)| s).collect();
     ctx.set("mixture_zones", json!(mix.len()));
@@ -1226,11 +1518,13 @@ fn main() {
         if let (Ok(a), Ok(b), Ok(c)) = (a, b, c) {
             mixtures(s, &a, &b, l);
             mixtures(s, &b, &c, l); // same iterations, different salt
+            mixtures(s, &a, &c, l); // same salt, different iterations
             reowned(s, &a, l);
             reowned(s, &b, l);
         }
     });
 
+    phases.push(("mixtures+reowned", t0.elapsed().as_secs_f64()));
     // one end-to-end confirmation of the "records of a zone that does not enclose the query name" findings
     {
         let rt = vsim::rt();
@@ -1242,16 +1536,27 @@ fn main() {
     ctx.set("limit_zones", json!(lim.len()));
     ctx.par_run_init(lim.len() as u64, 1, |_| vsim::rt(), |i, l, rt| iteration_limits(lim[i as usize], rt, l, &cnt));
 
+    phases.push(("limits", t0.elapsed().as_secs_f64()));
     // parameters at the integer-width / default-limit boundaries: the empty zone and the zones with one
     // owner of kind A (quick), every zone with <= 1 owner (thorough)
     let bnd: Vec<&ZoneSpec> = specs.iter().filter(|s| s.owners.is_empty() || (s.owners.len() == 1 && (thorough || s.owners[0].1 == Kind::A))).collect();
     ctx.set("boundary_zones", json!(bnd.len()));
     // (the limits-65535 part hashes ~6 names 65536 times per call: the empty zone only; thorough: also the one-owner A zones)
-    ctx.par_run_init(bnd.len() as u64, 1, |_| vsim::rt(), |i, l, rt| {
-        let s = bnd[i as usize];
-        boundary_params(s, s.owners.is_empty() || (thorough && s.owners[0].1 == Kind::A), rt, l, &cnt)
+    // one task per (zone, parameter set), the slow 65535 set first
+    ctx.par_run_init((bnd.len() * BOUNDARY_SETS) as u64, 1, |_| vsim::rt(), |i, l, rt| {
+        let s = bnd[i as usize % bnd.len()];
+        let set = BOUNDARY_SETS - 1 - i as usize / bnd.len();
+        boundary_params(s, s.owners.is_empty() || (thorough && s.owners[0].1 == Kind::A), thorough, Some(set), rt, l, &cnt)
     });
 
+    phases.push(("boundary", t0.elapsed().as_secs_f64()));
+    ctx.set("phase_end_s", json!(phases.iter().map(|(n, t)| json!([n, (t * 10.0).round() / 10.0])).collect::<Vec<_>>()));
+    ctx.with_local(codec_family);
+    if WIRE_FAILURES.load(Ordering::Relaxed) > 0 {
+        ctx.with_local(|l| {
+            l.violation("codec:response-does-not-survive-the-wire", &format!("{} scripted responses built from genuine records could not be encoded and decoded again by hickory's own codec", WIRE_FAILURES.load(Ordering::Relaxed)), || json!({"level": "codec"}))
+        });
+    }
     ctx.set("traces_validated_against_impl", json!(cnt.bound.load(Ordering::Relaxed)));
     if ctx.outcome_count("reference-inconsistent") > 0 {
         ctx.machinery_failure("vref::denial is inconsistent: nsec3_proves accepted a claim that truth() calls false (see stderr)");
@@ -1267,6 +1572,17 @@ fn main() {
     need.insert("bound:secure", "no Secure decision was replayed end to end");
     need.insert("chain:as-rfc5155", "no chain matched the reference chain");
     need.insert("mixture:bogus", "no parameter mixture was exercised");
+    need.insert("variant:other-rcode:bogus", "no response code other than NOERROR/NXDOMAIN was exercised");
+    need.insert("variant:e2e-servfail:not-secure", "no SERVFAIL response was replayed end to end");
+    need.insert("codec:nsec3-emit:as-reference", "the NSEC3 codec family did not run");
+    need.insert("codec:nsec3-decode:as-reference", "the NSEC3 codec family did not run");
+    need.insert("codec:genuine-nsec3-emit:as-reference", "no genuine NSEC3 was compared with the reference octets");
+    need.insert("second-validation:same-verdict", "no server answer was validated a second time");
+    need.insert("defective-chain:replaced-by-reference-chain", "no zone was run on the reference-produced chain");
+    need.insert("shape:ent-first-descendant-2-below", "no zone had an empty non-terminal whose first descendant is two or more labels below it");
+    need.insert("shape:ent-above-ent", "no zone had an empty non-terminal directly above another one");
+    need.insert("shape:wildcard-below-ent-chain", "no zone had a wildcard below a chain of two empty non-terminals");
+    need.insert("reowned:root-owner:bogus", "an NSEC3 record owned by the root name was never exercised");
     need.insert("reowned:descendant:soa:bogus", "no record re-owned below a descendant of the SOA owner was exercised");
     need.insert("reowned:ancestor:soa:bogus", "no record re-owned below an ancestor of the SOA owner was exercised");
     need.insert("reowned:unrelated:soa:bogus", "no record re-owned below an unrelated zone was exercised");
